@@ -33,11 +33,13 @@ type World struct {
 	Bucket  simpleblob.Interface
 	Insts   map[int]*WInst
 	// shadow mode: real stamp -> abstract clock value
-	tsAbs   map[uint64]int
-	maxReal uint64
-	Padding bool
-	DynTS   bool // name real stamps dynamically also in native mode (loop replays)
-	Sweeper config.Sweeper
+	tsAbs        map[uint64]int
+	maxReal      uint64
+	Padding      bool
+	DynTS        bool // name real stamps dynamically also in native mode (loop replays)
+	Sweeper      config.Sweeper
+	AgeSnapshots bool // merges see snapshot metadata 30 days older than it is
+	DupSortOpt   bool // option dupsort_hack switched on although no DBI is a dupsort DBI
 	// every version ever observed in a headered DBI (independent LWW reference)
 	Seen map[int]map[RVer]bool
 	R    *Result
@@ -93,16 +95,21 @@ func NewWorld(native bool, insts []int, conc Conc, kc KeyConc, R *Result) (*Worl
 }
 
 func (w *World) config(name string) config.Config {
-	c := config.Config{
-		Instance:             name,
-		LMDBs:                map[string]config.LMDB{},
-		LMDBPollInterval:     time.Millisecond,
-		StoragePollInterval:  time.Millisecond,
-		StorageRetryInterval: time.Millisecond,
-		StorageRetryCount:    1,
-		Sweeper:              w.Sweeper,
+	// the shipped defaults (sweeper disabled with retention_days 370, cleanup disabled, ...), with the intervals
+	// shortened and the forced-snapshot interval off; a sweeper configuration of the scenario replaces the default
+	c := config.Default()
+	c.Instance = name
+	c.LMDBs = map[string]config.LMDB{}
+	c.LMDBPollInterval = time.Millisecond
+	c.StoragePollInterval = time.Millisecond
+	c.StorageRetryInterval = time.Millisecond
+	c.StorageRetryCount = 1
+	c.StorageForceSnapshotInterval = 0
+	c.LMDBScrapeSmaps = false
+	if w.Sweeper.Enabled || w.Sweeper.RetentionDays != 0 {
+		c.Sweeper = w.Sweeper
 	}
-	c.LMDBs["default"] = config.LMDB{SchemaTracksChanges: w.Native, HeaderExtraPaddingBlock: w.Padding}
+	c.LMDBs["default"] = config.LMDB{SchemaTracksChanges: w.Native, HeaderExtraPaddingBlock: w.Padding, DupSortHack: w.DupSortOpt && !w.Native}
 	return c
 }
 
@@ -269,6 +276,11 @@ func (w *World) Merge(i, from, seq int) (localChanged bool, err error) {
 	upd, err := w.LoadBlob(src.Snaps[seq-1])
 	if err != nil {
 		return false, err
+	}
+	if w.AgeSnapshots && upd.Snapshot != nil {
+		// the snapshot was taken long ago (an instance that was offline): the stale-marker cutoff of a load is
+		// "now minus retention", whatever the age of the snapshot
+		upd.Snapshot.Meta.TimestampNano -= uint64(30 * 24 * time.Hour)
 	}
 	txnID, localChanged, err := in.S.LoadOnce(context.Background(), in.Env, src.Name, upd, in.LastSynced)
 	if err != nil {
